@@ -262,6 +262,7 @@ class Oracle:
         self.lats = lat_of(p)
         self.raised = {}       # (rel, key) -> number of times the value of the key was raised during the iteration
         self.rounds = 0
+        self.multi = 0         # joins (in the oracle's own order) that moved >= 2 components of a composite value at once
 
     def run(self, inp, max_rounds=500):
         st = {}
@@ -271,6 +272,7 @@ class Oracle:
             for t in rows:
                 self.add(st, name, tuple(t))
         self.raised = {}
+        self.multi = 0
         for rnd in range(max_rounds):
             self.rounds = rnd
             new = []
@@ -291,6 +293,8 @@ class Oracle:
             if k in st[rel]:
                 j = voc.join(self.lats[rel], st[rel][k], v)
                 if j != st[rel][k]:
+                    if voc.moved(self.lats[rel], st[rel][k], j) >= 2:
+                        self.multi += 1
                     st[rel][k] = j
                     self.raised[(rel, k)] = self.raised.get((rel, k), 0) + 1
                     return True
@@ -603,6 +607,10 @@ def const_code(rng, ty):
         return rng.choice([0, 1, 2, 3, 6, -1])
     if ty == "cp":
         return rng.choice([-1, -1, 0, 1, 2, 3, -2])
+    if ty in voc.COMPOSITE:
+        if voc.COMPOSITE[ty][3] and rng.random() < 0.25:
+            return 0
+        return voc.mk(ty, [rng.choice([0, 1, 2, 3, 5, 8]) for _ in voc.COMPOSITE[ty][2]])
     raise KeyError(ty)
 
 
@@ -662,6 +670,104 @@ def gen_program(rng, types=None):
     if u < 0.45:
         return const_prop(rng)
     return random_program(rng, types)
+
+
+# ------------------------------------------------------------------ composite lattice columns
+# Programs whose lattice column is a COMPOSITE shipped type (c03_vocab.COMPOSITE: Product over arrays / tuples and the
+# wrappers Dual, Option, Rc, Box, Reverse around them): a single join_mut has to move several components, and the
+# values derived for one key arrive in many different orders.
+
+def composite_program(rng, ty=None, form=None):
+    ty = ty or rng.choice(list(voc.COMPOSITE))
+    form = form or rng.choice(["maxima", "maxima", "lockstep", "lockstep", "paths", "merge", "random", "random"])
+    n = len(voc.COMPOSITE[ty][2])
+    cs = ["c%d" % i for i in range(n)]
+    L = ("lat", ty)
+    uniform = (ty + "_rot") in voc.FUNS
+    if form == "random":
+        others = [t for t in voc.COMPOSITE if t != ty] + ["max", "dual", "set"]
+        p = random_program(rng, [ty, ty, rng.choice(others)])
+        p["shape"] = "composite_random"
+        return p
+    rels, rules = [], []
+    if form == "maxima":
+        # per key the component-wise least upper bound of all samples; not recursive
+        rels += [("sample", n + 1, "rel"), ("hi", 2, L)]
+        rules.append(dict(heads=[("hi", [V("k"), F(ty + "_of", *cs)])], body=[("clause", "sample", [V("k")] + [V(c) for c in cs], [])]))
+        main = "hi"
+    elif form == "lockstep":
+        # every step raises ALL components of the value of its key together
+        rels += [("sample", n + 1, "rel"), ("inc", 2, "rel"), ("level", 2, L)]
+        rules.append(dict(heads=[("level", [V("k"), F(ty + "_of", *cs)])], body=[("clause", "sample", [V("k")] + [V(c) for c in cs], [])]))
+        rules.append(dict(heads=[("level", [V("k"), F(ty + "_step", "l", "w")])], body=[("clause", "level", [V("k"), V("l")], []), ("clause", "inc", [V("k"), V("w")], [])]))
+        if uniform and rng.random() < 0.3:
+            rules.append(dict(heads=[("level", [V("k"), F(ty + "_rot", "l")])], body=[("clause", "level", [V("k"), V("l")], [])]))
+        main = "level"
+    elif form == "paths":
+        rels += [("sample", n + 1, "rel"), ("edge", 3, "rel"), ("val", 2, L)]
+        rules.append(dict(heads=[("val", [V("x"), F(ty + "_of", *cs)])], body=[("clause", "sample", [V("x")] + [V(c) for c in cs], [])]))
+        body = [("clause", "val", [V("x"), V("l")], []), ("clause", "edge", [V("x"), V("y"), V("w")], [])]
+        if rng.random() < 0.5:
+            body.reverse()
+        rules.append(dict(heads=[("val", [V("y"), F(ty + "_step", "l", "w")])], body=body))
+        main = "val"
+    else:
+        # non-linear: the values of two keys are merged component-wise into a third
+        rels += [("sample", n + 1, "rel"), ("both", 3, "rel"), ("val", 2, L)]
+        rules.append(dict(heads=[("val", [V("x"), F(ty + "_of", *cs)])], body=[("clause", "sample", [V("x")] + [V(c) for c in cs], [])]))
+        rules.append(dict(heads=[("val", [V("z"), F(ty + "_merge", "a", "b")])],
+                          body=[("clause", "both", [V("x"), V("y"), V("z")], []), ("clause", "val", [V("x"), V("a")], []), ("clause", "val", [V("y"), V("b")], [])]))
+        if uniform and rng.random() < 0.5:
+            rules.append(dict(heads=[("val", [V("x"), F(ty + "_rot", "l")])], body=[("clause", "val", [V("x"), V("l")], [])]))
+        main = "val"
+    # observers: facts that depend on the lattice value through upward-closed tests, and one global join of every row
+    if rng.random() < 0.8:
+        rels += [("thr", 1, "rel"), ("reached", 2, "rel")]
+        rules.append(dict(heads=[("reached", [V("k"), V("t")])],
+                          body=[("clause", main, [V("k"), V("l")], []), ("clause", "thr", [V("t")], [("if", ty + "_all_ge", ["l", "t"])])]))
+    if rng.random() < 0.5:
+        rels.append(("tail", 1, "rel"))
+        rules.append(dict(heads=[("tail", [V("k")])], body=[("clause", main, [V("k"), V("l")], [("if", rng.choice([ty + "_last_hi", ty + "_first_hi"]), ["l"])])]))
+    if rng.random() < 0.5:
+        rels.append(("top", 1, L))
+        rules.append(dict(heads=[("top", [F((ty + "_id"), "l")])], body=[("clause", main, [V("k"), V("l")], [])]))
+    rng.shuffle(rules)
+    return dict(rels=rels, rules=rules, shape="composite_" + form)
+
+
+def composite_input(rng, p):
+    """inputs for composite_program: few keys, many samples per key with independently drawn components, in an order
+    that is random / rising in every component / falling in every component (so that single joins have to move
+    several components, one component, or none)"""
+    inp, style = gen_input(rng, p)
+    order = rng.choice(["random", "random", "rising", "falling", "mixed"])
+    for name, arity, kind in p["rels"]:
+        if name == "sample":
+            nk = rng.choice([1, 2, 3])
+            m = rng.choice([2, 3, 4, 6, 9])
+            rows = []
+            for k in range(nk):
+                vals = [tuple(rng.choice([0, 1, 2, 3, 4, 5, 6, 7]) for _ in range(arity - 1)) for _ in range(m)]
+                if order == "rising":
+                    cols = [sorted(c) for c in zip(*vals)]
+                    vals = list(zip(*cols))
+                elif order == "falling":
+                    cols = [sorted(c, reverse=True) for c in zip(*vals)]
+                    vals = list(zip(*cols))
+                elif order == "mixed":       # first component rising, the others falling
+                    cols = [sorted(c, reverse=(i > 0)) for i, c in enumerate(zip(*vals))]
+                    vals = list(zip(*cols))
+                rows += [(k,) + tuple(v) for v in vals]
+            if order == "random":
+                rng.shuffle(rows)
+            inp[name] = list(dict.fromkeys(rows))
+        elif name == "thr":
+            inp[name] = [(t,) for t in rng.sample([1, 2, 3, 4, 5, 6, 7, 9], rng.choice([1, 2, 3]))]
+        elif name == "inc":
+            inp[name] = list(dict.fromkeys((rng.choice([0, 1, 2]), rng.choice([1, 1, 2, 3])) for _ in range(rng.choice([1, 2, 4]))))
+        elif name == "both":
+            inp[name] = list(dict.fromkeys((rng.choice([0, 1, 2, 3]), rng.choice([0, 1, 2, 3]), rng.choice([0, 1, 2, 3, 4])) for _ in range(rng.choice([2, 4, 7]))))
+    return inp, "composite_" + order
 
 
 def improving_graph(rng, n):
